@@ -692,7 +692,7 @@ class Gen:
 
         w = rng.random() * 100
         if not ids and w > 30:
-            w = rng.random() * 30
+            w = rng.random() * 16
         if w < 10:
             m = self.material()
             if m:
